@@ -128,6 +128,50 @@ static Instance group(const std::string &name, int n, std::vector<std::vector<in
 	return inst;
 }
 
+// "After ANY sequence of push, pop and remove": a root (or inner node) with tens of thousands of children, collapsed on a
+// kernel-sized stack.  frigg is a freestanding kernel library; pop()/remove() must not need stack proportional to the
+// number of children.  Runs on a thread with a 256 KiB stack; a fault there is a crash of this instance.
+#include "../engine/enumerate.hpp"
+#include <pthread.h>
+struct DeepArg { int n; bool via_remove; std::string err; };
+static void *deep_body(void *vp) {
+	DeepArg &a = *(DeepArg *)vp;
+	std::vector<PNode> nodes(a.n + 1);
+	Heap h;
+	// descending priorities: every new element loses against the root and becomes one more child of it
+	for(int i = 0; i < a.n; i++) { nodes[i].prio = a.n - i; nodes[i].id = i; h.push(&nodes[i]); }
+	if(a.via_remove) {
+		// put a larger element on top, then remove the node that has all the children
+		nodes[a.n].prio = a.n + 5; nodes[a.n].id = a.n; h.push(&nodes[a.n]);
+		h.remove(&nodes[0]);
+		if(h.top() != &nodes[a.n]) { a.err = "top() wrong after removing the node with many children"; return nullptr; }
+		h.pop();
+	} else {
+		if(h.top() != &nodes[0]) { a.err = "top() is not the maximum"; return nullptr; }
+		h.pop();
+	}
+	int expect = a.n - 1, count = 0;
+	while(!h.empty()) {
+		PNode *t = h.top();
+		if(t->prio != expect) { a.err = "pop order wrong: got key " + std::to_string(t->prio) + ", expected " + std::to_string(expect); return nullptr; }
+		h.pop(); expect--; count++;
+	}
+	if(count != a.n - 1) a.err = "element count wrong after the deep collapse";
+	return nullptr;
+}
+static InstResult run_deep(const std::vector<CrashInfo> &cr, bool th) {
+	Enumerator E("ph-many-children-small-stack", "C08", cr);
+	for(int n : th ? std::vector<int>{1000, 20000, 100000, 400000} : std::vector<int>{1000, 20000, 100000}) for(int via_remove = 0; via_remove < 2; via_remove++)
+		E.eval(std::string(via_remove ? "remove" : "pop") + " of a node with " + std::to_string(n - 1) + " children on a 256 KiB stack", "pairing_heap.deep", [&] {
+			DeepArg a{n, (bool)via_remove, ""};
+			pthread_attr_t at; pthread_attr_init(&at); pthread_attr_setstacksize(&at, 256 << 10);
+			pthread_t t; if(pthread_create(&t, &at, deep_body, &a)) abort();
+			pthread_join(t, nullptr); pthread_attr_destroy(&at);
+			if(!a.err.empty()) throw Violation{"C08", "deep:" + std::string(via_remove ? "remove" : "pop"), a.err};
+		});
+	return E.finish();
+}
+
 static std::vector<Instance> mk(const std::string &tier) {
 	bool th = tier == "thorough";
 	int N = th ? 7 : 6, K = 3;
@@ -145,6 +189,9 @@ static std::vector<Instance> mk(const std::string &tier) {
 	}
 	std::vector<Instance> v;
 	for(size_t g = 0; g < all.size(); g++) v.push_back(group("ph-N" + std::to_string(N) + "-" + keyname(all[g]), N, {all[g]}));
+	{ Instance d; d.name = "ph-many-children-small-stack"; d.run = [=](const std::vector<CrashInfo> &cr) { return run_deep(cr, th); };
+	  d.replay = [=](const std::string &) { InstResult r = run_deep({}, th); for(auto &x : r.violations) printf("REPLAY-VIOLATION property=%s sig=%s: %s\n", x.prop.c_str(), x.sig.c_str(), x.msg.c_str()); return (int)r.violations.size(); };
+	  v.push_back(d); }
 	// thorough: 8 nodes for the balanced multisets (the all-equal ones have tens of millions of states)
 	if(th) for(auto k : std::vector<std::vector<int>>{{0, 0, 0, 1, 1, 2, 2, 2}, {0, 0, 1, 1, 1, 2, 2, 2}, {0, 0, 0, 1, 1, 1, 2, 2}}) v.push_back(group("ph-N8-" + keyname(k), 8, {k}));
 	return v;
